@@ -451,3 +451,14 @@ def codec_arg(args, kw, allowed=("ascii", "utf-8", "utf8", "UTF-8")):
     if not isinstance(enc, str) or enc not in allowed:
         raise Unsupported(f"codec {enc!r}")
     return enc
+
+
+def program_type_error(v, msg):
+    """The generic 'this value does not support that operation' of a model: for values that ARE Python values in the model
+    (numbers, None, booleans, records of repository classes, symbolic numbers) it is the program's TypeError; for a value class of
+    the engine or of a contract (an opaque object, a header text by contract, a file line ...) the operation is simply not
+    modelled - a gap of the model, never an error of the program."""
+    import z3 as _z3
+    if v is None or isinstance(v, (bool, int, float, Record)) or isinstance(v, _z3.ExprRef):
+        return SymRaise("TypeError", msg)
+    return Unsupported(f"{msg} (operation not modelled for a {type(v).__name__})")
